@@ -155,6 +155,7 @@ theorem natDec_digits (n : Nat) : (natDec n).all isAsciiDigit = true :=
 @[simp] theorem legal_a_label : xmlLegalName XS.a_label = true := by decide
 @[simp] theorem legal_a_completed : xmlLegalName XS.a_completed = true := by decide
 @[simp] theorem legal_a_multiline : xmlLegalName XS.a_multiline = true := by decide
+@[simp] theorem legal_a_tag : xmlLegalName XS.a_tag = true := by decide
 
 @[simp] theorem safe_boolBytes (b : Bool) : safeB (boolBytes b) = true := by cases b <;> decide
 @[simp] theorem safe_alertXmlType (a : AlertType) : safeB (alertXmlType a) = true := by cases a <;> decide
@@ -169,11 +170,9 @@ def valOk : XVal → Bool
 
 def attrValOk : XAttr → Bool
   | .mk _ v => valOk v
-  | .raw _ => true
 
 def attrNameOk : XAttr → Bool
   | .mk n _ => xmlLegalName n
-  | .raw _ => false
 
 def tokValsOk (t : XTok) : Bool := t.attrs.all attrValOk
 def tokNamesOk (t : XTok) : Bool := xmlLegalName t.name && t.attrs.all attrNameOk
@@ -201,7 +200,7 @@ theorem xmlKindAttrs_vals (cx : XCtx) (v : NodeValue) : (xmlKindAttrs cx v).all 
   all_goals (repeat' split)
   all_goals (try simp_all [xAttr, xAttrE, attrValOk, valOk])
 
-theorem xmlKindAttrs_names (cx : XCtx) (v : NodeValue) (h : isEscapedTag v = false) :
+theorem xmlKindAttrs_names (cx : XCtx) (v : NodeValue) :
     (xmlKindAttrs cx v).all attrNameOk = true := by
   cases v
   case tableCell =>
@@ -211,7 +210,6 @@ theorem xmlKindAttrs_names (cx : XCtx) (v : NodeValue) (h : isEscapedTag v = fal
     simp only [xmlKindAttrs]
     by_cases h1 : info.isEmpty = true <;> by_cases h2 : (info == XS.v_math) = true <;>
       simp [h1, h2, xAttr, xAttrE, preserveAttr, attrNameOk]
-  case escapedTag s => simp [isEscapedTag] at h
   all_goals simp [xmlKindAttrs, xAttr, xAttrE, preserveAttr, attrNameOk, List.all_append]
   all_goals (repeat' split)
   all_goals (try simp_all [xAttr, xAttrE, attrNameOk])
@@ -223,9 +221,9 @@ theorem xmlAttrs_vals (o : XmlOpts) (cx : XCtx) (v : NodeValue) (sp : Sp) :
     (xmlAttrs o cx v sp).all attrValOk = true := by
   simp [xmlAttrs, List.all_append, xmlSpAttr_vals, xmlKindAttrs_vals]
 
-theorem xmlAttrs_names (o : XmlOpts) (cx : XCtx) (v : NodeValue) (sp : Sp) (h : isEscapedTag v = false) :
+theorem xmlAttrs_names (o : XmlOpts) (cx : XCtx) (v : NodeValue) (sp : Sp) :
     (xmlAttrs o cx v sp).all attrNameOk = true := by
-  simp [xmlAttrs, List.all_append, xmlSpAttr_names, xmlKindAttrs_names cx v h]
+  simp [xmlAttrs, List.all_append, xmlSpAttr_names, xmlKindAttrs_names cx v]
 
 /-! ### Generic induction: every token of a rendering satisfies `P` -/
 
